@@ -221,6 +221,9 @@ func (e *engine) replayPinned(h *harnessSpec, v *violation) bool {
 }
 
 func cmdReplay(id, path string) int {
+	if abs, err := filepath.Abs(path); err == nil {
+		path = abs // the native replay runs in another working directory
+	}
 	b, err := os.ReadFile(path)
 	if err != nil {
 		fmt.Fprintln(os.Stderr, err)
